@@ -193,7 +193,7 @@ def run_crafted(case, ctx, mon):
 
 
 def gen_exhaustive(rng, ctx):
-    sizes = [4, 5] if ctx.quick else [4, 5, 6]
+    sizes = [4, 5, 6]
     for p in (7, 16):
         for n in sizes:
             keys = key_family(rng, n, 0, 9)
@@ -244,7 +244,7 @@ def gen_cases(ctx):
     if ctx.shard == 0 or ctx.thorough:
         yield from gen_crafted(rng, ctx)
         yield from gen_exhaustive(rng, ctx)
-    n = 250 if ctx.quick else 10**9
+    n = 3000 if ctx.quick else 10**9
     for _ in range(n):
         yield gen_history(rng, ctx)
 
